@@ -28,3 +28,24 @@ def build_wq_harness():
         build._run(["g++", hobj, sobj, "-lpthread", "-o", tmp])
         os.rename(tmp, exe)
     return exe
+
+
+def build_pkgdiff_harness():
+    """The real tools/abipkgdiff.cc and src/abg-workers.cc compiled with the pthread shim
+    (-Dmain=abipkgdiff_main), linked with vsched, the harness and the plain library."""
+    out = build.build("plain")
+    shim = ["-include", os.path.join(VS, "vsched_shim.h")]
+    flags = build.common_flags() + ["-O1", "-g0"]
+    shim_key = build._sha(build._read(os.path.join(VS, "vsched_shim.h")))
+    tobj = build.compile_obj("g++", flags + shim + ["-Dmain=abipkgdiff_main"], os.path.join(build.REPO, "tools", "abipkgdiff.cc"), extra_key="sched" + shim_key)
+    wobj = build.compile_obj("g++", flags + shim, os.path.join(build.REPO, "src", "abg-workers.cc"), extra_key="sched" + shim_key)
+    hk = build._sha(build._read(os.path.join(VS, "explore.h")), build._read(os.path.join(VS, "vsched.h")))
+    hobj = build.compile_obj("g++", ["-O1", "-g0", "-std=c++11", "-w", "-I" + VS, "-I" + HARNESS], os.path.join(HARNESS, "pkgdiff_harness.cc"), extra_key="pk" + hk)
+    sobj = vsched_obj()
+    key = build._sha(tobj, wobj, hobj, sobj)[:12]
+    exe = os.path.join(out, "pkgdiff_harness." + key)
+    if not os.path.exists(exe):
+        tmp = exe + ".%d.tmp" % os.getpid()
+        build._run(["g++", hobj, tobj, wobj, sobj, os.path.join(out, "libabigail.a")] + build.LIBS + ["-o", tmp])
+        os.rename(tmp, exe)
+    return exe
